@@ -117,7 +117,7 @@ func checkC12(ck *Check) {
 				ck.cond(okv, "C12.R2", ck.P.siteKey(ci), ck.P.instrPos(ci), funcID(fn), "the cloud group is looked up by the current group's own cloud_provider_group_name", arg.String(), why)
 			}
 		}
-		ck.floor("C12.R2", "GetNodeGroup call sites", n, 4)
+		ck.floor("C12.R2", "GetNodeGroup call sites", n, 2)
 	}
 	// R3 listers
 	ck.listerWiring("C12.R3")
@@ -148,12 +148,38 @@ func (ck *Check) listerWiring(rule string) {
 		n := 0
 		for _, ctor := range []*ssa.Function{newLister, newDefault} {
 			want := ctor
-			// NewClient's extended body: the map may be filled by a helper NewClient calls
-			for _, bc := range ck.bodyCalls(fn, func(ci ssa.CallInstruction) bool { return ci.Common().StaticCallee() == want }) {
+			// NewClient's extended body: the map may be filled by a helper NewClient calls; the
+			// constructor may be called directly or picked first as a function value (a φ of the two)
+			pickGuard := map[ssa.CallInstruction]*Formula{}
+			sites := ck.bodyCalls(fn, func(ci ssa.CallInstruction) bool {
+				if ci.Common().StaticCallee() == want {
+					return true
+				}
+				if ci.Common().IsInvoke() || ci.Common().StaticCallee() != nil {
+					return false
+				}
+				_, isPhi := ci.Common().Value.(*ssa.Phi)
+				return isPhi
+			})
+			for _, bc := range sites {
 				ci, ctx := bc.Call, bc.Ctx
 				c, isCall := ci.(*ssa.Call)
 				if !isCall {
 					continue
+				}
+				if ci.Common().StaticCallee() != want {
+					// a call through a picked constructor value: the cases under which it is this one
+					g := FFalse
+					for _, vc := range ck.valueCases(ctx, FTrue, ci.Common().Value, 0) {
+						if vc.term.Kind == "func" && vc.term.Fn == want {
+							g = Or(g, vc.guard)
+						}
+					}
+					if g == FFalse {
+						continue
+					}
+					pickGuard[ci] = g
+					bc.PC = And(bc.PC, g)
 				}
 				n++
 				var optsT *Term
@@ -163,6 +189,9 @@ func (ck *Check) listerWiring(rule string) {
 					}
 				}
 				key := ck.P.siteKey(ci)
+				if pickGuard[ci] != nil {
+					key += "/" + want.Name()
+				}
 				// stored under the same element's name
 				stored := false
 				var gotKey string
@@ -291,7 +320,7 @@ func (ck *Check) listerWiring(rule string) {
 			})
 		}
 	}
-	ck.floor(rule, "NodeGroupState construction sites", n, 2)
+	ck.floor(rule, "NodeGroupState construction sites", n, 1)
 }
 
 // storeCensus (C12.R4)
